@@ -4,7 +4,7 @@
    State.String, makes GetState return something else than the stored word, or adds / removes a
    method of *Collector breaks a named obligation here. *)
 From Coq Require Import String.
-From Verif Require Import Common.Base Generated.C20State C20.Model C20.Names.
+From Verif Require Import Common.Base Generated.C20State Generated.C20Fatal C20.Model C20.Names.
 
 Definition phase_Z (p : phase) : Z :=
   match p with Starting => StateStarting | Running => StateRunning | Closing => StateClosing | Closed => StateClosed end.
@@ -35,3 +35,18 @@ Proof. reflexivity. Qed.
 (* the method set of *Collector is exactly the one the model was written after *)
 Theorem collector_api_is_the_modelled_one : collector_methods = modelled_methods.
 Proof. reflexivity. Qed.
+
+(* every component status event that can be built (status, carries an error value?), in the order of
+   the dumped table *)
+Definition all_event_points : list (Z * bool) :=
+  [ (0, false); (1, false); (2, false); (3, false); (3, true); (4, false); (4, true);
+    (5, false); (5, true); (6, false); (7, false) ]%Z.
+
+(* Host.NotifyComponentStatusChange, RUN on every point by the check (Generated/C20Fatal.v), forwards
+   exactly what the model says: StatusFatalError, with or without an error value, and nothing else;
+   the points are all statuses the Go source has now. *)
+Theorem fatal_forwarding_is_the_go_table :
+  fatal_forward_table = map (fun p => (p, forwards_async (fst p) (snd p))) all_event_points /\
+  (forall s e, forwards_async s e = Z.eqb s StatusFatalError) /\
+  all_status_consts = [0; 1; 2; 3; 4; 5; 6; 7]%Z.
+Proof. split; [reflexivity|split; [reflexivity|reflexivity]]. Qed.
